@@ -14,10 +14,17 @@ CONSTANTS Depth2,     \* TRUE: also the depth-2 type terms and the larger text s
 HazardTexts  == {<<"1","e","3">>, <<".","_","1">>, <<"a","NEL","b">>}
 ControlTexts == {<<"a","b","c">>, <<"1">>, <<"t","r","u","e">>, <<"n","u","l","l">>, << >>, <<"R","E","D">>, <<" ","x">>}
 MoreTexts    == {<<"1","E","3">>, <<"1",".","e","3">>, <<"-","9","e","1">>, <<".","_">>, <<"1",".","5">>, <<"2","0","0","1","-","0","1","-","0","1">>, <<"~">>, <<"o","n">>, <<"0","x","1","F">>, <<"1","_","0","0","0">>, <<".","i","n","f">>, <<"I","n","f","i","n","i","t","y">>, <<"1","e","+","3">>, <<"-"," ","a">>, <<"#","c">>, <<"x",":"," ","y">>, <<"[","1","]">>}
-StrTexts     == HazardTexts \cup ControlTexts \cup (IF Depth2 THEN MoreTexts ELSE {})
-IntTexts     == {<<"0">>, <<"1">>, <<"-","5">>}
+\* round 4: the parser modes json / jsonnet (cfg: CONSTANT ParserMode <- ModeJson / ModeJsonnet) get the texts and numbers
+\* that matter there: raw LS / unprintable characters in JSON strings, integral floats, -0.0, ints beyond 2^53
+ModeJson == "json"
+ModeJsonnet == "jsonnet"
+OtherMode == ParserMode # "yaml"
+ModeTexts    == IF OtherMode THEN {<<"a"," ","LS"," ","b">>, <<"a","NPR","b">>, <<"[","1","]">>, <<"1",".","0">>} ELSE {}
+StrTexts     == HazardTexts \cup ControlTexts \cup ModeTexts \cup (IF Depth2 THEN MoreTexts ELSE {})
+IntTexts     == {<<"0">>, <<"1">>, <<"-","5">>} \cup (IF OtherMode THEN {<<"9","0","0","7","1","9","9","2","5","4","7","4","0","9","9","3">>} ELSE {})
 FloatReprs   == {<<"1",".","5">>, <<"1","e","+","1","6">>, <<"i","n","f">>, <<"n","a","n">>} \cup (IF Depth2 THEN {<<"-","0",".","0">>, <<"-","i","n","f">>, <<"1","e","-","0","7">>, <<"3",".","0">>} ELSE {})
-KeyTexts     == {<<"a">>, <<"1","e","3">>, <<"1">>} \cup (IF Depth2 THEN {<<"t","r","u","e">>, <<".","_","1">>, << >>} ELSE {})
+                \cup (IF OtherMode THEN {<<"3",".","0">>, <<"-","0",".","0">>, <<"1","e","+","2","2">>, <<"1","e","-","0","7">>} ELSE {})
+KeyTexts     == {<<"a">>, <<"1","e","3">>, <<"1">>} \cup (IF Depth2 THEN {<<"t","r","u","e">>, <<".","_","1">>, << >>} ELSE {}) \cup (IF OtherMode THEN {<<"a","LS","b">>, <<"o","n">>} ELSE {})
 
 Color  == TEnum(<<<<"R","E","D">>, <<"G","R","E","E","N">>>>)
 Color2 == TEnum(<<<<"A">>, <<"B">>>>)
@@ -59,12 +66,22 @@ Depth1 == {Tag(TOpt(LeavesSeq[i])) : i \in 1..Len(LeavesSeq)}
      \cup UNION {SeqSet(<<r, TOpt(r)>>) : r \in {RRange, RTd, RDec, RBytes, RBArr, RPLike, RUuid, RCplx}}
      \cup SeqSet(<<TList(RRange), TList(TOpt(RRange)), TDict(TStr, RRange), TTuple(<<RRange, TInt>>), TList(RDec), TDict(TStr, TOpt(RDec)), TList(RBytes),
                   TList(TOpt(RTd)), TOpt(DCR), TList(DCR)>>)
+\* round 4: Enum members named like YAML keywords / numbers, typing.Any, a dataclass with a Union[int, float] field
+EnumK  == TEnum(<<<<"o","n">>, <<"n","u","l","l">>, <<"1","e","3">>>>)
+DCU    == TDC(<< <<<<"u">>, TUnion(<<TInt, TFloat>>), IntV(<<"1">>)>>, <<<<"s">>, TStr, Str(<<"x">>)>> >>)
+DC1Defaults == NSV(<< <<<<"a">>, IntV(<<"1">>)>>, <<<<"s">>, Str(<<"x">>)>>, <<<<"o">>, NullV>> >>)
+DCO    == TDC(<< <<<<"i">>, DC1, DC1Defaults>>, <<<<"n">>, TInt, IntV(<<"0">>)>> >>)             \* a dataclass inside a dataclass
+Round4Types == SeqSet(<<EnumK, TOpt(EnumK), TList(EnumK), TDict(TStr, EnumK), TAny, TList(TAny), TDict(TStr, TAny), TOpt(DCU), TOpt(DCO), TList(DCO), TDict(TStr, DCO)>>)
+\* the types of the json / jsonnet instances (quick): where the reading of the text matters
+ModeTypes == SeqSet(<<TStr, TInt, TFloat, Color, TOpt(TStr), TUnion(<<TInt, TFloat>>), TUnion(<<TStr, TFloat>>),
+                     TList(TStr), TDict(TStr, TStr), TDict(TInt, TStr), TOpt(DC1), RDec, EnumK, TAny, TOpt(DCU)>>)
 Depth2Types == SeqSet(<<TOpt(TList(TStr)), TOpt(TList(TInt)), TList(TOpt(TStr)), TList(TOpt(TInt)), TDict(TStr, TList(TStr)), TList(TDict(TStr, TInt)),
                 TUnion(<<TInt, TList(TInt)>>), TUnion(<<TStr, TList(TStr)>>), TUnion(<<TList(TStr), TStr>>), TList(TTuple(<<TInt, TStr>>)),
                 TDict(TStr, TUnion(<<TInt, TStr>>)), TDict(TStr, TOpt(TFloat)), TOpt(TDict(TStr, TStr)), TList(TUnion(<<TStr, TFloat>>)),
                 TTuple(<<TOpt(TStr), TList(TInt)>>), TUnion(<<TStr, TInt, TNone>>), TUnion(<<TFloat, TStr, TNone>>), TDict(TInt, TList(TStr)),
                 TOpt(TSet(TStr)), TList(TOpt(DC1)), TUnion(<<TBool, TStr>>), TUnion(<<TDict(TStr, TInt), TStr>>), TTuple(<<DC1, TInt>>), TList(TDict(TStr, DC1))>>)
-Types == Leaves \cup Depth1 \cup (IF Depth2 THEN Depth2Types ELSE {})
+Round4Quick == SeqSet(<<EnumK, TOpt(EnumK), TAny, TOpt(DCU), TOpt(DCO), TDict(TStr, DCO)>>)
+Types == IF OtherMode /\ ~Depth2 THEN ModeTypes ELSE Leaves \cup Depth1 \cup (IF Depth2 THEN Round4Types \cup Depth2Types ELSE Round4Quick)
 
 \* ------------------------------------------------------------------ inputs of a type: the trees a config file could hold for it (tagged)
 Pairs(S) == {<<a, b>> : a, b \in S}
@@ -81,6 +98,8 @@ InputsOf(t) ==
     [] t.c = "bool"  -> {Tag(BoolV(TRUE)), Tag(BoolV(FALSE))}
     [] t.c = "none"  -> {Tag(NullV)}
     [] t.c = "reg"   -> {Tag(Str(s)) : s \in RegTexts(t.p[1])} \cup RegNumbers(t.p[1])
+    [] t.c = "any"   -> {Tag(Str(s)) : s \in StrTexts} \cup {Tag(IntV(s)) : s \in IntTexts} \cup {Tag(Flt(r)) : r \in FloatReprs} \cup {Tag(NullV), Tag(BoolV(TRUE))}
+                        \cup {Tag(ListV(<<Str(<<"1">>), IntV(<<"1">>), Str(<<"1","e","3">>)>>)), Tag(DictV(<< <<Str(<<"a">>), Str(<<"1">>)>>, <<Str(<<"1","e","3">>), Flt(<<"3",".","0">>)>> >>))}
     [] t.c = "enum"  -> {Tag(Str(t.p[i])) : i \in 1..Len(t.p)} \cup {Tag(Str(<<"a","b","c">>))}
     [] t.c = "literal" -> {Tag(t.p[i]) : i \in 1..Len(t.p)} \cup {Tag(Str(<<"z","z">>)), Tag(Str(<<"1">>))}
     [] t.c = "union" -> UNION {InputsOf(t.p[i]) : i \in 1..Len(t.p)}
@@ -96,11 +115,19 @@ InputsOf(t) ==
          {Tag(DictV(<< >>))}
          \cup {Tag(DictV(<< <<Str(<<"r">>), Str(s)>> >>)) : s \in {<<"r","a","n","g","e","(","0",","," ","1","0",","," ","2",")">>, <<"r","a","n","g","e","(","3",")">>}}
          \cup {Tag(DictV(<< <<Str(<<"r">>), Str(<<"r","a","n","g","e","(","2",","," ","5",")">>)>>, <<Str(<<"t">>), Str(s)>> >>)) : s \in {<<"1"," ","d","a","y",","," ","2",":","0","3",":","0","4">>, <<"0",":","0","0",":","0","1">>}}
+    [] t.c = "dc" /\ t.p[1][1] = <<"i">> ->
+         LET In(ps) == DictV(<< <<Str(<<"i">>), DictV(ps)>> >>) IN
+         {Tag(DictV(<< >>)), Tag(DictV(<< <<Str(<<"n">>), IntV(<<"2">>)>> >>)), Tag(In(<< >>)), Tag(In(<< <<Str(<<"a">>), IntV(<<"2">>)>> >>)), Tag(In(<< <<Str(<<"z","z">>), IntV(<<"1">>)>> >>)),
+          Tag(DictV(<< <<Str(<<"i">>), DictV(<< <<Str(<<"s">>), Str(<<"1","e","3">>)>>, <<Str(<<"o">>), Str(<<"u">>)>> >>)>>, <<Str(<<"n">>), IntV(<<"3">>)>> >>)),
+          Tag(In(<< <<Str(<<"s">>), Str(<<"a","NEL","b">>)>> >>)), Tag(In(<< <<Str(<<"o">>), NullV>>, <<Str(<<"a">>), IntV(<<"5">>)>> >>))}
+    [] t.c = "dc" /\ t.p[1][1] = <<"u">> ->
+         {Tag(DictV(<< >>))} \cup {Tag(DictV(<< <<Str(<<"u">>), u[2]>> >>)) : u \in {Tag(IntV(<<"2">>)), Tag(Flt(<<"3",".","0">>)), Tag(Flt(<<"2",".","5">>))}}
+         \cup {Tag(DictV(<< <<Str(<<"u">>), Flt(<<"2",".","5">>)>>, <<Str(<<"s">>), Str(s)>> >>)) : s \in {<<"a","NEL","b">>, <<"1","e","3">>}}
     [] t.c = "dc" ->
          {Tag(DictV(<< >>)), Tag(DictV(<< <<Str(<<"a">>), IntV(<<"2">>)>> >>)), Tag(DictV(<< <<Str(<<"z","z">>), IntV(<<"2">>)>> >>))}
          \cup {Tag(DictV(<< <<Str(<<"a">>), IntV(<<"2">>)>>, <<Str(<<"s">>), Str(s)>> >>)) : s \in {<<"y">>, <<"1","e","3">>, <<".","_","1">>}}
          \cup {Tag(DictV(<< <<Str(<<"s">>), Str(<<"y">>)>>, <<Str(<<"o">>), o[2]>> >>)) : o \in {Tag(NullV), Tag(Str(<<"u">>)), Tag(Str(<<"1","e","3">>))}}
-Formats == {"yaml", "json"}
+Formats == IF ParserMode = "yaml" THEN {"yaml", "json"} ELSE IF ParserMode = "jsonnet" /\ Depth2 THEN {"json", "yaml"} ELSE {"json"}
 TypedInputs == UNION {{<<tt[1], x[1], tt[2], x[2]>> : x \in InputsOf(tt[2])} : tt \in Types}
 LeafCases == {Tag([kind |-> "leaf", t |-> tx[3], x |-> tx[4], fmt |-> fmt]) : fmt \in Formats, tx \in TypedInputs}
 
@@ -136,7 +163,8 @@ CfgsBC(withNone) ==
   \cup {Tag(CfgV(<<top[2]>>, 2, << >>)) : top \in TS(<<IntV(<<"0">>), IntV(<<"2">>)>>)}
   \cup {Tag(CfgV(<<top[2]>>, 3, <<y[2]>>)) : top \in TS(<<IntV(<<"0">>), IntV(<<"2">>)>>), y \in TS(<<NullV, Str(<<"u">>), Str(<<"1","e","3">>)>>)}
   \cup (IF withNone THEN {Tag(CfgV(<<top[2]>>, 0, << >>)) : top \in TS(<<IntV(<<"0">>), IntV(<<"2">>)>>)} ELSE {})
-ShapedCfgs == {<<1, c[1], c[2]>> : c \in CfgsA} \cup {<<2, c[1], c[2]>> : c \in CfgsBC(FALSE)} \cup {<<3, c[1], c[2]>> : c \in CfgsBC(TRUE)} \cup {<<4, c[1], c[2]>> : c \in CfgsD}
+ShapedCfgs == {<<1, c[1], c[2]>> : c \in CfgsA} \cup {<<2, c[1], c[2]>> : c \in CfgsBC(FALSE)}
+              \cup (IF OtherMode /\ ~Depth2 THEN {} ELSE {<<3, c[1], c[2]>> : c \in CfgsBC(TRUE)} \cup {<<4, c[1], c[2]>> : c \in CfgsD})   \* the quick mode instances: shapes A and B
 CfgCases == {Tag([kind |-> "cfg", sh |-> sc[1], cfg |-> sc[3], fmt |-> fmt, sn |-> sn, sd |-> sd]) :
                fmt \in Formats, sn \in BOOLEAN, sd \in BOOLEAN, sc \in ShapedCfgs}
 
@@ -144,18 +172,23 @@ CfgCases == {Tag([kind |-> "cfg", sh |-> sc[1], cfg |-> sc[3], fmt |-> fmt, sn |
 SetSeq(S) == SetToSeq(S)
 LeafFacts(c) ==
   LET v == Accept(c.t, c.x) IN
-  IF Bad(v) THEN [v |-> v, tree |-> v, doc |-> v, rt |-> v, irt |-> v, hz |-> << >>]
+  IF Bad(v) THEN [v |-> v, tree |-> v, doc |-> v, rt |-> v, irt |-> v, hz |-> << >>, hy |-> << >>, mrt |-> Unsure, mhz |-> << >>]
   ELSE LET tree == SerializeLeaf(c.t, v, FALSE)
            rt   == AlgRT(c.t, v, c.fmt)
            irt  == IdealRT(c.t, v, c.fmt)
-       IN [v |-> v, tree |-> tree, doc |-> IF Bad(tree) THEN tree ELSE WriteDoc(c.fmt, tree), rt |-> rt, irt |-> irt, hz |-> SetSeq(LeafHazards(c.t, v, c.fmt))]
+       IN [v |-> v, tree |-> tree, doc |-> IF Bad(tree) THEN tree ELSE WriteDoc(c.fmt, tree), rt |-> rt, irt |-> irt, hz |-> SetSeq(LeafHazards(c.t, v, c.fmt)),
+           \* round 4: in the json / jsonnet instances, the families the YAML reader WOULD have had on this text: where the mode matters (always replayed)
+           hy |-> IF OtherMode /\ ~Bad(tree) THEN SetSeq(HazardsY("json", tree) \cup HazardsY("yaml", tree)) ELSE << >>,
+           \* round 4: the multi-file save of a Dict value that came from its own file (parser_mode yaml)
+           mrt |-> IF ParserMode = "yaml" /\ c.t.c = "dict" THEN ReparseMultiLeaf(c.t, v, c.fmt, FALSE) ELSE Unsure,
+           mhz |-> IF ParserMode = "yaml" /\ c.t.c = "dict" THEN SetSeq(MultiHazards(c.t, v, c.fmt)) ELSE << >>]
 CfgFacts(c) ==
   LET shape == Shapes[c.sh]
       fl    == Flags(FALSE, c.sn, c.sd)
       ifl   == Flags(TRUE, c.sn, c.sd)
   IN [v |-> c.cfg, tree |-> DumpTree(shape, c.cfg, fl), doc |-> NullV, rt |-> ReparseCfg(shape, c.cfg, c.fmt, fl), irt |-> ReparseCfg(shape, c.cfg, c.fmt, ifl),
-      hz |-> SetSeq(CfgDeviations(shape, c.cfg, c.fmt, fl))]
-NoFacts == [v |-> NullV, tree |-> NullV, doc |-> NullV, rt |-> NullV, irt |-> NullV, hz |-> << >>]
+      hz |-> SetSeq(CfgDeviations(shape, c.cfg, c.fmt, fl)), hy |-> << >>, mrt |-> Unsure, mhz |-> << >>]
+NoFacts == [v |-> NullV, tree |-> NullV, doc |-> NullV, rt |-> NullV, irt |-> NullV, hz |-> << >>, hy |-> << >>, mrt |-> Unsure, mhz |-> << >>]
 
 VARIABLES c, ph, f
 vars == <<c, ph, f>>
@@ -169,7 +202,10 @@ IsCfg   == Done /\ c.kind = "cfg"
 \* ---- leaf level
 InvIdealRoundTrip       == IsLeaf => (Same(f.irt, f.v) \/ IsUnsure(f.irt))                           \* serialising mirrors deserialising
 InvRoundTripModuloKnown == IsLeaf => (Same(f.rt, f.v) \/ IsUnsure(f.rt) \/ f.hz # << >>)             \* only the named hazards break the round trip
-InvHazardsAreReal       == IsLeaf => ((f.hz # << >> /\ ~IsUnsure(f.rt)) => ~Same(f.rt, f.v))         \* and they do break it
+InvHazardsAreReal       == IsLeaf => (((\E n \in 1..Len(f.hz) : f.hz[n] \notin SoftFamilies) /\ ~IsUnsure(f.rt)) => ~Same(f.rt, f.v))   \* and they do break it (the soft families: only where the type keeps the int)
+\* ---- multi-file save of a Dict value (round 4): only the named deviations break it, and the unserialised sub-file does break it
+InvMultiModuloKnown == IsLeaf => (Same(f.mrt, f.v) \/ IsUnsure(f.mrt) \/ f.mhz # << >>)
+InvMultiHazardReal  == IsLeaf => ((\E n \in 1..Len(f.mhz) : f.mhz[n] = "multifile-subconfig-not-serialised") => IsErr(f.mrt))
 \* ---- configuration level
 Want == Expected(Shapes[c.sh], c.cfg, Flags(FALSE, c.sn, c.sd))
 CfgOK(r) == ~Bad(r) /\ SameCfg(r, Want)
@@ -180,6 +216,6 @@ InvCfgIdeal == IsCfg => (CfgOK(f.irt) \/ IsUnsure(f.irt)
 PlainLaw == IF ~Done THEN TRUE ELSE IF c.kind = "leaf" THEN (Bad(f.v) \/ Same(f.rt, f.v) \/ IsUnsure(f.rt)) ELSE (CfgOK(f.rt) \/ IsUnsure(f.rt))
 InvFind  == PlainLaw \/ PrintT(ToJson([cex |-> c, hz |-> f.hz]))
 \* ---- emission for the replay
-EmitCase == (Emit /\ Done) => PrintT(ToJson([case |-> c, v |-> f.v, tree |-> f.tree, doc |-> f.doc, rt |-> f.rt, irt |-> f.irt, hz |-> f.hz]))
-ASSUME Emit => PrintT(ToJson([shapes |-> Shapes]))
+EmitCase == (Emit /\ Done) => PrintT(ToJson([case |-> c, v |-> f.v, tree |-> f.tree, doc |-> f.doc, rt |-> f.rt, irt |-> f.irt, hz |-> f.hz, hy |-> f.hy, mrt |-> f.mrt, mhz |-> f.mhz]))
+ASSUME Emit => PrintT(ToJson([shapes |-> Shapes, mode |-> ParserMode]))
 =============================================================================
